@@ -55,11 +55,7 @@ func (m *Model) Apply(t *Txn, ui uint64) {
 		r.UI = ui
 		m.Refs[r.Name] = r
 	}
-	for _, l := range t.Logs {
-		if !l.Del {
-			l.UI = ui + l.Fut
-		}
-		l.Fut = 0
+	for _, l := range t.effectiveLogs(ui) {
 		l = NormLog(l, m.HS, m.Exact)
 		m.Logs[LogKey{l.Name, l.UI}] = l
 	}
@@ -244,17 +240,35 @@ func (t *Txn) Materialize(ui uint64) ([]Ref, []Log) {
 		refs[i] = r
 	}
 	SortRefs(refs)
-	logs := make([]Log, len(t.Logs))
-	for i, l := range t.Logs {
+	logs := t.effectiveLogs(ui)
+	SortLogs(logs)
+	return refs, logs
+}
+
+// effectiveLogs resolves the update indices of the transaction's log records for update
+// index ui. A tombstone aimed at an existing entry that was filed under a future index
+// can coincide with a new entry of this very transaction (same name, same index): one
+// table cannot hold both, the new entry wins and the tombstone is dropped - identically
+// for the writer input and for the model.
+func (t *Txn) effectiveLogs(ui uint64) []Log {
+	fresh := map[LogKey]bool{}
+	for _, l := range t.Logs {
+		if !l.Del {
+			fresh[LogKey{l.Name, ui + l.Fut}] = true
+		}
+	}
+	out := make([]Log, 0, len(t.Logs))
+	for _, l := range t.Logs {
 		l = l.Clone()
 		if !l.Del {
 			l.UI = ui + l.Fut
+		} else if fresh[LogKey{l.Name, l.UI}] {
+			continue
 		}
 		l.Fut = 0
-		logs[i] = l
+		out = append(out, l)
 	}
-	SortLogs(logs)
-	return refs, logs
+	return out
 }
 
 // FlatKeys returns n conflict-free ref names.
